@@ -273,6 +273,9 @@ def flatten(v, T):
     if isinstance(T, ty._Int):
         if isinstance(v, VBool):
             return (z3.If(v.t, z3.IntVal(1), z3.IntVal(0)),)
+        if isinstance(v, VObj):
+            # an opaque object used where an integer is expected (e.g. a descriptor read from a dictionary)
+            return (z3.Function("unbox_int", ty.IntS, ty.IntS)(v.t),)
         if not isinstance(v, VInt):
             raise EngineError(f"expected int, got {v!r}")
         return (v.t,)
